@@ -232,17 +232,25 @@ def restore_expect(world, facts, before, obs, slots, inscope_good):
             continue
         if dest_before is not None and o.get("overwrite"):
             kind = dest_before[0]
-            if kind == "d" or (kind == "l" and under_dest is False and _link_to_dir(before, loc)):
+            mts = sorted(world["mounts"], key=len, reverse=True)
+            devof = lambda p: next((m for m in mts if p == m or p.startswith(m + b"/")), b"/")
+            payload = before.get(e["tdir"] + b"/files/" + e["name"])
+            if kind == "d":
+                # the property only speaks about non-directory destinations
                 slots[k] = "any"
                 notes["tags"].append("restore:overwrite-onto-directory")
                 notes["stop_checking"] = True
                 break
-            payload = before.get(e["tdir"] + b"/files/" + e["name"])
-            if payload is not None and payload[0] == "d" and kind != "d":
-                slots[k] = "any"
-                notes["tags"].append("restore:overwrite-dir-over-nondir")
-                notes["stop_checking"] = True
-                break
+            # a non-directory destination must be replaced by the restored entry; classify the cases
+            # in which the pinned tree is known not to do so (known findings)
+            if kind == "l" and _link_to_dir(before, loc):
+                notes["restore_class"] = "overwrite-onto-symlink-to-dir"
+            elif payload is not None and payload[0] == "d":
+                notes["restore_class"] = "overwrite-dir-payload-over-nondir"
+            elif devof(e["tdir"]) != devof(os.path.dirname(loc)):
+                notes["restore_class"] = "overwrite-across-volumes"
+            if notes.get("restore_class"):
+                notes["tags"].append("restore:" + notes["restore_class"])
         if before.get(e["tdir"] + b"/files/" + e["name"]) is None:
             stopped = True
             continue
@@ -302,7 +310,7 @@ def evaluate(world, drv, want_states=False, oracles=("effects",), plan=None, fau
     # ---- oracles -----------------------------------------------------------------------------------
     slots, notes = expectations(world, facts, before, obs)
     res["tags"] += notes.get("tags", [])
-    res["notes"] = {k: v for k, v in notes.items() if k in ("selection", "refused", "all_kept")}
+    res["notes"] = {k: v for k, v in notes.items() if k in ("selection", "refused", "all_kept", "restore_class")}
     mounts = [hx(x) for x in world["mounts"]]
     base = {"op": "oracle", "before": snapshot_rows(obs["before"]), "after": snapshot_rows(obs["after"]), "mounts": mounts}
     tdirs = sorted({t for (t, _n) in slots} | {d for d, _b, _k in facts["scope"]})
@@ -386,6 +394,8 @@ def evaluate(world, drv, want_states=False, oracles=("effects",), plan=None, fau
             res["oracle"]["exit"] = {"ok": False, "verdict": "invalid-selection-but-exit-0"}
         if notes.get("refused") and obs["exit"] == 0:
             res["oracle"]["exit"] = {"ok": False, "verdict": "refused-overwrite-but-exit-0"}
+    res["after_state"] = snap_to_state(obs["after"])
+    res["before_state"] = snap_to_state(obs["before"])
     res["stdout"], res["stderr"] = obs["stdout"], obs["stderr"]
     res["trace"] = obs["trace"]
     return res
